@@ -137,7 +137,7 @@ func TestVerif_C08_Munged(t *testing.T) {
 	}, func(v *vfT) vfC08MungedCase {
 		r := v.R
 		var c vfC08MungedCase
-		c.Hist = vfFamBGenPair(r, 2, 5, false, false)
+		c.Hist = vfFamBGenPair(r, 2, 5, false, false, false)
 		for _, op := range c.Hist.Ops {
 			if op.Op != "negotiate" {
 				continue
